@@ -1,4 +1,5 @@
 import Secp.Gen.Formulas
+import Secp.Proofs.AbsSound
 /-
   Props/C16 — no input makes point or signature arithmetic wrap or compare denormalised.
 
@@ -43,6 +44,84 @@ theorem isOnCurve_ok : isOnCurve.absOK (normalisedInputs 2) [] = true := by deci
 theorem DecompressY_ok : DecompressY.absOK [some (8, false), none] [] = true := by decide +kernel
 theorem Inverse_ok : Inverse.absOK [some (8, false)] [] = true := by decide +kernel
 theorem SquareRootVal_ok : SquareRootVal.absOK [none, some (8, false)] [] = true := by decide +kernel
+
+/-! ### what acceptance by the abstract interpreter MEANS for the limb code
+
+  `Secp.Model.LimbExec` runs a formula program on registers of ten uint32 limbs, performing every
+  FieldVal method by the REGENERATED limb kernel (`Secp.Gen.Field_*`, Go wrap-around semantics).
+  `Rel σ rl rv`: the limb registers `rl` realise the abstract state σ (magnitude bounds, normalised
+  flags, every limb fits uint32) and denote the field values `rv`. -/
+
+/-- If the abstract interpreter accepts a program from σ, then for ALL limb registers realising σ the
+    limb-level run and the value-level run take the same branches and end in related states: no limb
+    wraps, every comparison sees a normalised value, and the results depend only on the field values
+    the operands denote — not on their limb representation.  (Proved from the C05 kernel theorems.) -/
+theorem absPath_sound (items : List PItem) (σ σ' : AState) (rl : Secp.Model.LRegs) (rv : Regs) (bools : List Bool)
+    (hcf : Secp.Proofs.AbsSound.CallFree items) (hir : Secp.Proofs.AbsSound.InRange rl.length items)
+    (habs : absPath items σ = some σ') (hrel : Secp.Model.Rel σ rl rv) :
+    (Secp.Model.execPathL bools items rl = none ↔ execPathWith (fun _ _ => none) bools items rv = none) ∧
+    ∀ rl' rv', Secp.Model.execPathL bools items rl = some rl' →
+      execPathWith (fun _ _ => none) bools items rv = some rv' → Secp.Model.Rel σ' rl' rv' :=
+  Secp.Proofs.AbsSound.absPath_sound items σ σ' rl rv bools hcf hir habs hrel
+
+/-- a program accepted by the abstract interpreter contains no call item -/
+theorem callFree_of_abs : ∀ (items : List PItem) (σ σ' : AState), absPath items σ = some σ' →
+    Secp.Proofs.AbsSound.CallFree items
+  | [], _, _, _ => by intro it hit; cases hit
+  | .op o :: rest, σ, σ', h => by
+    simp only [absPath] at h
+    cases hs : stepA σ o with
+    | none => simp [hs] at h
+    | some σ1 =>
+      simp [hs] at h
+      intro it hit
+      rcases List.mem_cons.mp hit with rfl | ht
+      · rfl
+      · exact callFree_of_abs rest σ1 σ' h it ht
+  | .assume c v :: rest, σ, σ', h => by
+    simp only [absPath] at h
+    split at h
+    · intro it hit
+      rcases List.mem_cons.mp hit with rfl | ht
+      · rfl
+      · exact callFree_of_abs rest σ σ' h it ht
+    · cases h
+  | .call _ _ :: _, _, _, h => by simp [absPath] at h
+
+/-- an accepted entry: every path is accepted individually -/
+theorem absOK_path (e : Entry) (σ0 : AState) (outs : List Nat) (h : e.absOK σ0 outs = true) (p : FPath) (hp : p ∈ e.paths) :
+    ∃ σ', absPath p.items σ0 = some σ' := by
+  unfold Entry.absOK at h
+  have := List.all_eq_true.mp h p hp
+  cases hq : absPath p.items σ0 with
+  | none => simp [hq] at this
+  | some σ' => exact ⟨σ', rfl⟩
+
+/-- every register index of every regenerated path lies inside the entry's register file -/
+def entryInRange (e : Entry) : Bool := e.paths.all fun p => decide (Secp.Proofs.AbsSound.InRange e.nreg p.items)
+
+theorem all_in_range : (allEntries.all entryInRange) = true := by decide +kernel
+
+/-- Consequence for e.g. AddNonConst with the result aliasing its first operand: whatever limb
+    representation the normalised operands have, each path's limb-level execution agrees with its
+    value-level execution.  (The same instantiation works for every entry and path above.) -/
+theorem AddNonConst_r1_limbs (p : FPath) (hp : p ∈ AddNonConst_r1.paths) (rl : Secp.Model.LRegs) (rv : Regs)
+    (hlen : rl.length = AddNonConst_r1.nreg) (hrel : Secp.Model.Rel (normalisedInputs 6) rl rv) :
+    ∃ σ', absPath p.items (normalisedInputs 6) = some σ' ∧
+      ((Secp.Model.execPathL [] p.items rl = none ↔ execPathWith (fun _ _ => none) [] p.items rv = none) ∧
+       ∀ rl' rv', Secp.Model.execPathL [] p.items rl = some rl' →
+         execPathWith (fun _ _ => none) [] p.items rv = some rv' → Secp.Model.Rel σ' rl' rv') := by
+  obtain ⟨σ', hσ⟩ := absOK_path AddNonConst_r1 _ _ AddNonConst_r1_ok p hp
+  refine ⟨σ', hσ, ?_⟩
+  have hall : entryInRange AddNonConst_r1 = true := by
+    have := List.all_eq_true.mp all_in_range AddNonConst_r1 (by simp [allEntries])
+    exact this
+  have hir : Secp.Proofs.AbsSound.InRange rl.length p.items := by
+    rw [hlen]
+    have := List.all_eq_true.mp hall p hp
+    exact of_decide_eq_true this
+  have hcf : Secp.Proofs.AbsSound.CallFree p.items := callFree_of_abs p.items _ _ hσ
+  exact absPath_sound p.items _ σ' rl rv [] hcf hir hσ hrel
 
 /-- the checker is not vacuous: it rejects the doubling formula with Negate(15) in place of Negate(16) -/
 example : absPath [.op (.mulInt 0 8), .op (.mulInt 0 2), .op (.neg 0 0 15)] [nrm] = none := by decide
